@@ -206,6 +206,97 @@ def pair_failure(a, b, sa, sb):
     return None
 
 
+# {{{ size: wide n-ary nodes, deep chains
+
+WIDE_TAGS = ("Sum", "Product", "Min", "LogicalAnd", "Call", "tuple-in-Subscript")
+WIDE_Q = (129, 300)
+WIDE_T = (65, 129, 300, 1100)
+DEEP_TAGS = ("Sum", "Power", "Call", "CommonSubexpression")
+DEEP_Q = (60, 200, 400)
+DEEP_T = (60, 200, 300, 400, 600, 900)
+
+
+def _wide(tag, entries):
+    import pymbolic.primitives as p
+    t = tuple(entries)
+    if tag == "Call":
+        return p.Call(p.Variable("f"), t)
+    if tag == "tuple-in-Subscript":
+        return p.Subscript(p.Variable("a"), t)
+    return getattr(p, tag)(t)
+
+
+def wide_failure(tag, n, pos):
+    """A node with *n* children against (a) an equal one built separately and (b) copies that
+    differ in ONE child only, by a constant whose hash collides (-1 / -2, 0 / 2**61-1), by an
+    unrelated constant, and by a variable -- at the first, the middle or the last position."""
+    import pymbolic.primitives as p
+    idx = {"first": 0, "middle": n // 2, "last": n - 1}[pos]
+    base = [p.Variable(f"v{i % 7}") if i % 3 else i for i in range(n)]
+    for here, there, equal in ((-1, -1, True), (-1, -2, False), (0, 2**61 - 1, False),
+                               (-1, 5, False), (p.Variable("q"), p.Variable("r"), False),
+                               (p.Power(p.Variable("q"), -1), p.Power(p.Variable("q"), -2),
+                                False)):
+        ea, eb = list(base), list(base)
+        ea[idx], eb[idx] = here, there
+        a, b = _wide(tag, ea), _wide(tag, eb)
+        for x, y in ((a, b), (b, a)):
+            try:
+                got, ne = (x == y), (x != y)
+                if got != equal or ne == got:
+                    return ("eq-wrong", f"{n} children, entry {idx} is {here!r} in one and "
+                            f"{there!r} in the other: == gives {got}, != gives {ne}")
+                if equal and (hash(x) != hash(y) or {x: 1}.get(y) != 1):
+                    return ("hash-differs", f"{n} children: equal nodes hash / look up apart")
+                if not equal and len({x, y}) != 2:
+                    return ("dict-lookup", f"{n} children, entry {idx} {here!r} / {there!r}: the "
+                            "two nodes collapse into one set element")
+            except RecursionError:
+                raise
+            except Exception as e:  # noqa: BLE001
+                return (f"eq-raises:{type(e).__name__}", f"{n} children: {e!r}")
+    return None
+
+
+def _deep(tag, depth):
+    """Built bottom-up, hashing every level (so that hash() never has to recurse)."""
+    import pymbolic.primitives as p
+    e = p.Variable("x")
+    for i in range(depth):
+        if tag == "Sum":
+            e = p.Sum((e, i % 3))
+        elif tag == "Power":
+            e = p.Power(e, 2) if i % 2 else p.Power(2, e)
+        elif tag == "Call":
+            e = p.Call(p.Variable("f"), (e,))
+        else:
+            e = p.CommonSubexpression(e, "p" if i % 2 else None)
+        hash(e)
+    return e
+
+
+def deep_failure(tag, depth, r=None):
+    """Two separately built, structurally identical chains: == is True -- or the comparison gives
+    up with RecursionError; it never answers False (and != never True, a dict never misses
+    silently).  A chain that differs at the very bottom must not compare equal."""
+    a, b = _deep(tag, depth), _deep(tag, depth)
+    for what, fn, good in (("==", lambda: a == b, True), ("!=", lambda: a != b, False),
+                           ("dict look-up", lambda: {a: 1}.get(b), 1),
+                           ("set membership", lambda: b in {a}, True)):
+        try:
+            got = fn()
+        except RecursionError:
+            if r is not None:
+                r.count("deep_comparisons_gave_up")
+            continue
+        if got != good:
+            return ("eq-wrong", f"two identical {tag} chains of depth {depth}: {what} gives "
+                    f"{got!r}")
+    return None
+
+# }}}
+
+
 def self_failure(o):
     """Reflexivity on ONE object, whatever its fields hold (a constant that is not equal to itself
     must not make the node unequal to itself): ==, !=, hash, set and dict membership."""
@@ -545,8 +636,20 @@ class C01(Check):
         def selfcmp():
             for i in range(len(NAN_OBJECTS)):
                 yield ("self", i)
+
+        def wide():
+            for tag in WIDE_TAGS:
+                for n in (WIDE_Q if tier == "quick" else WIDE_T):
+                    for pos in ("first", "middle", "last"):
+                        yield ("wide", tag, n, pos)
+
+        def deep():
+            for tag in DEEP_TAGS:
+                for d in (DEEP_Q if tier == "quick" else DEEP_T):
+                    yield ("deep", tag, d)
         return [("class-definitions", classdefs), ("pairs", pool_items),
-                ("immutability", immut), ("self-comparison", selfcmp), ("lifetimes", life),
+                ("immutability", immut), ("self-comparison", selfcmp), ("wide-nodes", wide),
+                ("deep-chains", deep), ("lifetimes", life),
                 ("histories", hist)]
 
     def pool(self):
@@ -593,6 +696,20 @@ class C01(Check):
             f = pair_failure(a, b, to_spec(a), to_spec(b))
             if f:
                 r.fail(f[0], f"{f[0]}|{show(to_spec(a))}|{show(to_spec(b))}", f[1])
+            return r
+        if kind == "wide":
+            r.evals += 1
+            r.keys.append(item)
+            f = wide_failure(*item[1:])
+            if f:
+                r.fail(f[0], f"{f[0]}|wide {item[1]} n={item[2]} {item[3]}", f[1])
+            return r
+        if kind == "deep":
+            r.evals += 1
+            r.keys.append(item)
+            f = deep_failure(item[1], item[2], r)
+            if f:
+                r.fail(f[0], f"{f[0]}|deep {item[1]} depth={item[2]}", f[1])
             return r
         if kind == "self":
             name, mk = NAN_OBJECTS[item[1]]
